@@ -92,6 +92,9 @@ fn render_enum(it: &Value) -> Vec<String> {
             "min" => (min, true),
             "max" => (max, true),
             "max1" => (max + 1, true),
+            "zero" => (0, true),
+            "one" => (1, true),
+            "two" => (2, true),
             _ => (values.first().copied().unwrap_or(0), true),
         };
         values.push(val);
@@ -144,6 +147,8 @@ fn render_key(it: &Value) -> Vec<String> {
         "nested" => format!("struct U {{ f: Dictionary<string, {d}> }}"),
         "elem" => format!("struct U {{ f: Sequence<{d}> }}"),
         "param" => format!("interface I {{ op(p: {d}) }}"),
+        "enfield" => format!("enum U {{ A, B(tag(1) f: Sequence<{d}>?), C }}"),
+        "retmember" => format!("interface I {{ op() -> (a: bool, b: {d}) }}"),
         _ => format!("typealias U = {d}"),
     };
     vec![format!("{KEY_PRELUDE}{user}\n")]
@@ -258,6 +263,10 @@ fn render_attr(it: &Value) -> Vec<String> {
         "custom" => format!("module M\n{a} custom C\n"),
         "alias" => format!("module M\n{a} typealias L = int32\n"),
         "typeref" => format!("module M\nstruct S {{ f: {a} int32 }}\n"),
+        "typeref_enfield" => format!("module M\nenum E {{ A(x: {a} int32), B }}\n"),
+        "typeref_param" => format!("module M\ninterface I {{ op(p: {a} int32) }}\n"),
+        "typeref_ret" => format!("module M\ninterface I {{ op() -> {a} int32 }}\n"),
+        "typeref_elem" => format!("module M\nstruct S {{ f: Sequence<{a} int32> }}\n"),
         "base" => format!("module M\ninterface B {{}}\ninterface D : {a} B {{}}\n"),
         "underlying" => format!("module M\nenum E : {a} uint8 {{ A }}\n"),
         _ => format!("module M\nenum E {{ A({a} x: int32), B }}\n"),
@@ -347,7 +356,7 @@ pub fn render(case: &Value) -> Option<Vec<String>> {
     let it = &case["item"];
     Some(match case["fam"].as_str().unwrap_or("") {
         "members" => render_members(it),
-        "enums" => render_enum(it),
+        "enums" | "enumorder" => render_enum(it),
         "keys" => render_key(it),
         "stream" => render_stream(it),
         "names" => render_names(it),
